@@ -830,3 +830,104 @@ def adders(prog, chk):
             elif ans != (fc is not None):
                 problems.append("answers %r where presence is %s" % (ret, fc is not None))
             chk.ob(rule, "has_attribute|%d present|%s" % (k, ans), not problems, body.loc(), detail="; ".join(problems), how="E2 return state")
+
+
+# ------------------------------------------------------------------------------------------------ the header MessageBuilder::write_into produces
+
+def header_layout(prog):
+    """Runs MessageBuilder::write_into on an output buffer whose content is tracked and returns, per Ok return state, the
+    pieces of the first 20 bytes: -> list of (state, run, pieces, byte_len value) (pieces None when unknown)"""
+    from absint.models_content import cell_view_id
+    key = MBNS + "write_into"
+    body = prog.bodies[key]
+    arg = {body.locals[i]["name"]: i for i in range(1, body.arg_count + 1)}
+
+    def setup(run, st):
+        dc = run.it.cell_of(run.fr, arg["dest"])
+        dv = st.cells.get(dc)
+        ln = dv.len if isinstance(dv, Seq) else run.it.fresh_num(st, 0, None, "destlen").e
+        st.cells["outbuf:dest"] = Seq(ln, None, None, None, ("orig:dest", Lin.const(0)))
+        st.cells[dc] = Seq(ln, None, None, (cell_view_id(run.it, "outbuf:dest", ()), Lin.const(0)), None)
+
+    def model_attr_write(c):
+        # per-attribute writer (decided by C12): Err, or Ok(n) having written n >= 4 bytes at the start of its window
+        dest = c.deref(c.args[1])
+        if "ghost:hdr" not in c.st.cells:
+            c.st.cells["ghost:hdr"] = c.st.cells.get("outbuf:dest")      # the buffer as it is before the first attribute is written
+        s_err = c.st.copy()
+        n = c.it.fresh_num(c.st, 4, None, "wrote")
+        if isinstance(dest, Seq):
+            c.st.sys.add_ge(dest.len - n.e)
+            c.it.record_write(c.st, dest, Lin.const(0), n.e, "data")
+        return [(s_err, Enum("std::result::Result", {1: Struct({0: TOP})})), (c.st, Enum("std::result::Result", {0: Struct({0: n})}))]
+
+    def post_len(it, st, fr, ret):
+        if isinstance(ret, Num):
+            st.cells["ghost:bytelen"] = ret
+    r = Run(prog, key, track_content=True, bool_vars=False, path_sensitive=False, setup=setup, max_parts=400,
+            local_models={"stun_types::message::AttrOrRaw::<'a>::write_into": model_attr_write}, hooks={MBNS + "byte_len": post_len})
+    out = []
+    if r.error:
+        return r, out
+    use_registry(r.it)
+    for st, ret in r.results:
+        if variant_of(prog, ret) != "Ok":
+            continue
+        buf = st.cells.get("ghost:hdr") or st.cells.get("outbuf:dest")
+        segs = content_segments(st, buf) if isinstance(buf, Seq) else None
+        head, pos = [], 0
+        for s_ in segs or []:
+            if pos >= 20:
+                break
+            ln = s_[1] if s_[0] == "be" else st.sys.const_value(s_[3]) if s_[0] == "win" else None
+            if ln is None:
+                if s_[0] == "win":
+                    head.append(s_)      # the rest of the buffer
+                break
+            head.append(s_)
+            pos += int(ln)
+        bl = st.cells.get("ghost:bytelen")
+        out.append((st, r, head, bl.e if isinstance(bl, Num) else None))
+    return r, out
+
+
+def header_clauses(prog, chk, want):
+    """want: subset of {'length-field', 'cookie-tid', 'coverage'}; rule names are the callers' (C03 / C19 / C12)"""
+    r, rows = header_layout(prog)
+    body = prog.bodies[MBNS + "write_into"]
+    if r.error or not rows:
+        for w in want:
+            chk.fail(w, "MessageBuilder::write_into|analysis", body.loc(), r.error or "no Ok return state")
+        return
+    for st, run, head, bl in rows:
+        sizes = [(s_[1] if s_[0] == "be" else st.sys.const_value(s_[3])) for s_ in head]
+        if "coverage" in want:
+            ok = bool(head) and all(s_[0] == "be" or (s_[0] == "win" and str(s_[1]).startswith("be")) for s_ in head[:4]) and sum(int(x) for x in sizes[:4] if x is not None) >= 20 or \
+                (sum(int(x) for x in sizes if x is not None) >= 20 and all(not (s_[0] == "win" and s_[1] == "orig:dest") for s_ in head))
+            chk.ob("builder-header", "the header writes cover exactly bytes [0, 20): nothing of the original buffer content remains there", ok, body.loc(),
+                   detail=show_segments(head), how="E2 content of the output buffer after write_into")
+        if "length-field" in want:
+            v = head[1][2] if len(head) >= 2 and head[1][0] == "be" else None
+            if v is not None and len(v.t) == 1 and v.c == 0:
+                v = run.it.contents.get("casts", {}).get(next(iter(v.t)), v)       # `(len - 20) as u16`: the value before truncation
+            ok = len(head) >= 2 and head[0][0] == "be" and head[0][1] == 2 and head[1][0] == "be" and head[1][1] == 2 and v is not None and bl is not None \
+                and st.sys.entails_eq(v - bl + 20)
+            chk.ob("length-field", "write_into stores byte_len() - 20 at [2..4]", ok, body.loc(), detail=show_segments(head), how="E2 content of the output buffer after write_into")
+        if "cookie-tid" in want:
+            # either one 16-byte big-endian word at [4..20) (its bit composition is checked on the expression), or the
+            # cookie as 4 bytes followed by the low 96 bits of the transaction id
+            okw = len(head) >= 3 and head[2][0] == "be" and head[2][1] == 16
+            okp = False
+            if len(head) >= 4 and head[2][0] == "be" and head[2][1] == 4 and head[2][2] is not None and st.sys.const_value(head[2][2]) == 0x2112A442 and head[3][0] == "win":
+                d = run.it.contents.get(head[3][1])
+                me = run.self_before(st)
+                names = [f["name"] for f in prog.adts[MBADT]["variants"][0]["fields"]]
+                tid = me.get(names.index("transaction_id")) if isinstance(me, Struct) else None
+                tv = tid.get(0) if isinstance(tid, Struct) else None
+                okp = bool(d) and d[0] == "int" and d[1] == 16 and st.sys.entails_eq(head[3][2] - 4) and st.sys.entails_eq(head[3][3] - 12) \
+                    and isinstance(tv, Num) and st.sys.entails_eq(d[2] - tv.e)
+            chk.ob("transaction-id", "MessageBuilder::write_into: bytes [4..20) are the cookie followed by the low 96 bits of the transaction id (one 128-bit word, or 4 + 12 bytes)",
+                   okw or okp, body.loc(), detail=show_segments(head), how="E2 content of the output buffer after write_into")
+            yield_word = okw and not okp
+            if yield_word:
+                chk.sample({"header": show_segments(head)}) if hasattr(chk, "sample") else None
